@@ -221,7 +221,7 @@ PROPS = {
   # both flavours of resolving (`resolve`, `resolve_mut`: every resolve line is also run as resolve_mut), and the
   # position the error names ("the error names the first step that fails")
   twin_ops={"resolve": "resolve_mut"},
-  ops={"resolve": dict(fields=["r", "val", _locate("pos")], spec=[("r", "spec_r", ident)], laws=["law_walk", "law_fwd"]),
+  ops={"deep": dict(fields=[], laws=["law_deep"]), "resolve": dict(fields=["r", "val", _locate("pos")], spec=[("r", "spec_r", ident)], laws=["law_walk", "law_fwd"]),
        "resolve_mut": dict(fields=["r", "val", _locate("pos")], spec=[("r", "spec_r", ident)], laws=["law_walk", "law_fwd"])},
   rule="all documents of a tiny grammar × all pointers of ≤2 (quick) / ≤3 (thorough) tokens over a delicate pool, + seeded random documents with path-directed / perturbed / free pointers; non-trivial: ≥2 tokens or an index/escaped token, on a container",
   exhaustive="155 tiny documents × all pointers of ≤2/≤3 tokens over {a,0,1,-,00,~0}",
@@ -230,7 +230,7 @@ PROPS = {
  ),
  "C06": dict(
   twin_toml=True,
-  ops={"assign": dict(fields=["r", "doc"], spec=[("r", "spec_r", ident), ("doc", "spec_doc", ident)], laws=["law_slack", "law_fwd"])},
+  ops={"deep": dict(fields=[], laws=["law_deep"]), "assign": dict(fields=["r", "doc"], spec=[("r", "spec_r", ident), ("doc", "spec_doc", ident)], laws=["law_slack", "law_fwd"])},
   rule="tiny-grammar exhaustive scope + seeded random (document, pointer, value); non-trivial: ≥2 tokens or an index/escaped token, on a container",
   exhaustive="155 tiny documents × all pointers of ≤2/≤3 tokens × 1–2 values",
   theorems="Jp.C06.assign_eq_spec, expand_eq_spec, assign_root, only_two_failures, spec_rules",
@@ -246,7 +246,7 @@ PROPS = {
  ),
  "C08": dict(
   twin_toml=True,
-  ops={"delete": dict(fields=["r", "doc"], spec=[("r", "spec_r", ident), ("doc", "spec_doc", ident)],
+  ops={"deep": dict(fields=[], laws=["law_deep"]), "delete": dict(fields=["r", "doc"], spec=[("r", "spec_r", ident), ("doc", "spec_doc", ident)],
                       laws=["law_agrees", "law_none_unchanged", "law_removed", "law_root", "law_slack", "law_fwd"])},
   rule="tiny-grammar exhaustive scope + seeded random, many pointers ending in index = len, len+1, '-', empty arrays; non-trivial as C05",
   exhaustive="155 tiny documents × all pointers of ≤2/≤3 tokens",
@@ -270,7 +270,7 @@ PROPS = {
   partial="the model is parametric in the backend, so JSON = TOML is true of the model by construction; the agreement of the separately written Rust copies is decided by the differential run",
  ),
  "C10": dict(
-  ops={"tree_hist": dict(fields=["steps"], spec=[("steps", "spec_steps", ident)], laws=["law_nopanic", "law_nodes", "law_wf"])},
+  ops={"deep": dict(fields=[], laws=["law_deep"]), "tree_hist": dict(fields=["steps"], spec=[("steps", "spec_steps", ident)], laws=["law_nopanic", "law_nodes", "law_wf"])},
   rule="all histories of length ≤3 over an 8-op pool from 3 start documents (json and toml) + seeded random histories (1–30 / 1–200 steps) generated against the live document; non-trivial: ≥3 steps",
   exhaustive="all histories of length ≤ 3 over 8 operations from 3 start documents, both backends",
   theorems="Jp.C10.step_refines, history_refines, no_step_panics, nodes_addressable_after, wf_preserved",
